@@ -266,6 +266,23 @@ func (fr *frame) callRepo(p *Path, e *ast.CallExpr, fi *FuncInfo, recv Value, ar
 	} else {
 		res = fr.callInline(p, e, fi, recv, args)
 	}
+	if fr.depth == 0 && c.Fn.Contract != nil {
+		for _, g := range c.Fn.Contract.CallGhosts {
+			if g.Callee == sk && g.Ord == ord {
+				g.Fi = fi
+				for _, pv := range res {
+					if pv.P.Ghosts == nil {
+						pv.P.Ghosts = map[string]Value{}
+					}
+					v := pv.V
+					if tv, ok := v.(*TupleVal); ok && g.Res < len(tv.Vs) {
+						v = tv.Vs[g.Res]
+					}
+					pv.P.Ghosts[g.Name] = v
+				}
+			}
+		}
+	}
 	// stage-1 cut: value === tenth(spec), lo <= spec <= hi; the path stops here
 	if fr.depth == 0 && fam != nil && fam.StopSpec != nil && fam.StopCallee == sk && fam.StopOrd == ord {
 		c.CutSeen["stop"] = true
@@ -418,6 +435,16 @@ func bindParams(p *Path, fi *FuncInfo, recv Value, args []Value) {
 	n := sig.Params().Len()
 	for i := 0; i < n; i++ {
 		prm := sig.Params().At(i)
+		if sig.Variadic() && i == n-1 && isOptionList(prm.Type()) && i < len(args) {
+			if _, isT := args[i].(Term); isT {
+				p.Vars[prm] = args[i] // forwarded option list (os...)
+				continue
+			}
+			if vv, ok := args[i].(*VariadicVal); ok {
+				p.Vars[prm] = vv
+				continue
+			}
+		}
 		if sig.Variadic() && i == n-1 {
 			// variadic parameter: pack the remaining arguments
 			var elems []Value
@@ -430,6 +457,15 @@ func bindParams(p *Path, fi *FuncInfo, recv Value, args []Value) {
 		}
 	}
 }
+
+// TemplateVal: a *template.Template (A6)
+type TemplateVal struct {
+	Src    Term
+	Parsed bool
+}
+
+// libErr: a non-nil error of a library (matches none of the cvsserr sentinels)
+var libErr = Term{S: "#x800", Sort: SErr, C: "err:800"}
 
 type VariadicVal struct {
 	Elems    []Value
@@ -496,6 +532,29 @@ func (fr *frame) callContract(p *Path, e *ast.CallExpr, fi *FuncInfo, recv Value
 			env.Vars[ct.Results[i]] = env.Vars[nm]
 		}
 	}
+	// a `summary` function is represented exactly by its summary term
+	if ct.Summary && nres == 1 {
+		if _, ok := c.U.Specs[summaryName(fi.Key)]; ok {
+			var as []Term
+			okAll := true
+			if sig.Recv() != nil {
+				t, ok := asTerm(recv)
+				okAll = okAll && ok
+				as = append(as, t)
+			}
+			for _, a := range args {
+				t, ok := asTerm(a)
+				okAll = okAll && ok
+				as = append(as, t)
+			}
+			if okAll {
+				if t, ok := c.U.foldSpecApp(summaryName(fi.Key), as); ok {
+					return one(p, t)
+				}
+				return one(p, app(c.U.sortOfType(sig.Results().At(0).Type()), summaryName(fi.Key), as...))
+			}
+		}
+	}
 	// postconditions: functional ones bind the result, the rest are assumed; ensures owned by a ground family of the
 	// callee speak about ghost variables of that family and are not visible to callers
 	owned := familyLabels(ct)
@@ -506,7 +565,7 @@ func (fr *frame) callContract(p *Path, e *ast.CallExpr, fi *FuncInfo, recv Value
 				skip = true
 			}
 		}
-		if skip {
+		if skip || mentionsGhost(en.Expr, ct) {
 			continue
 		}
 		fr.assumeEnsures(p, env, en.Expr, results, nres, fi, site)
@@ -790,6 +849,28 @@ func (fr *frame) callStdlib(p *Path, e *ast.CallExpr, name string, recv Value, a
 		if x, ok := asTerm(args[0]); ok {
 			return one(p, Term{S: "(fp.roundToIntegral RTN " + x.S + ")", Sort: SF64})
 		}
+	case "math.Ceil":
+		if x, ok := asTerm(args[0]); ok {
+			return one(p, Term{S: "(fp.roundToIntegral RTP " + x.S + ")", Sort: SF64})
+		}
+	case "math.Trunc":
+		if x, ok := asTerm(args[0]); ok {
+			return one(p, Term{S: "(fp.roundToIntegral RTZ " + x.S + ")", Sort: SF64})
+		}
+	case "math.RoundToEven":
+		if x, ok := asTerm(args[0]); ok {
+			return one(p, Term{S: "(fp.roundToIntegral RNE " + x.S + ")", Sort: SF64})
+		}
+	case "math.Abs":
+		if x, ok := asTerm(args[0]); ok {
+			return one(p, Term{S: "(fp.abs " + x.S + ")", Sort: SF64})
+		}
+	case "math.Max":
+		x, ok1 := asTerm(args[0])
+		y, ok2 := asTerm(args[1])
+		if ok1 && ok2 {
+			return one(p, app(SF64, "go_max", x, y))
+		}
 	case "strconv.FormatFloat":
 		if x, ok := asTerm(args[0]); ok && len(args) == 4 {
 			f, _ := asTerm(args[1])
@@ -813,6 +894,78 @@ func (fr *frame) callStdlib(p *Path, e *ast.CallExpr, name string, recv Value, a
 						}
 					}
 				}
+			}
+		}
+	case "io.Copy":
+		// (A6) io.Copy(buffer, reader): either the reader delivers its whole content (appended to the buffer) or an error
+		if b, ok := args[0].(*BuilderVal); ok {
+			if r, ok := asTerm(args[1]); ok && r.Sort == SReader {
+				c.AxiomsUsed["A6"] = true
+				var obj *types.Var
+				if id, ok := e.Args[0].(*ast.Ident); ok {
+					obj, _ = fr.info.Uses[id].(*types.Var)
+				}
+				okT := app(SBool, "reader_ok", r)
+				good := p.clone()
+				good.assume(okT)
+				bad := p
+				bad.assume(tNot(okT))
+				var out []PV
+				if !good.Dead {
+					if obj != nil {
+						good.Vars[obj] = &BuilderVal{Content: tConcat(b.Content, app(SStr, "reader_content", r))}
+					}
+					out = append(out, PV{good, &TupleVal{[]Value{c.fresh("n_copied", SInt), errNil}}})
+				}
+				if !bad.Dead {
+					if obj != nil {
+						bad.Vars[obj] = &BuilderVal{Content: tConcat(b.Content, c.fresh("partial_copy", SStr))}
+					}
+					out = append(out, PV{bad, &TupleVal{[]Value{c.fresh("n_copied", SInt), libErr}}})
+				}
+				return out
+			}
+		}
+	case "text/template.New":
+		c.AxiomsUsed["A6"] = true
+		return one(p, &TemplateVal{})
+	case "text/template.Template.Parse":
+		if _, ok := recv.(*TemplateVal); ok {
+			if s, ok := asTerm(args[0]); ok {
+				c.AxiomsUsed["A6"] = true
+				okT := app(SBool, "tt_parse_ok", s)
+				return one(p, &TupleVal{[]Value{&TemplateVal{Src: s, Parsed: true}, tIte(okT, errNil, libErr)}})
+			}
+		}
+	case "text/template.Template.Execute":
+		if t, ok := recv.(*TemplateVal); ok && t.Parsed {
+			b, ok1 := args[0].(*BuilderVal)
+			d, ok2 := asTerm(args[1])
+			if ok1 && ok2 && d.Sort == SInt {
+				c.AxiomsUsed["A6"] = true
+				var obj *types.Var
+				if id, ok := e.Args[0].(*ast.Ident); ok {
+					obj, _ = fr.info.Uses[id].(*types.Var)
+				}
+				okT := app(SBool, "tt_exec_ok", t.Src, d)
+				good := p.clone()
+				good.assume(okT)
+				bad := p
+				bad.assume(tNot(okT))
+				var out []PV
+				if !good.Dead {
+					if obj != nil {
+						good.Vars[obj] = &BuilderVal{Content: tConcat(b.Content, app(SStr, "tt_exec_out", t.Src, d))}
+					}
+					out = append(out, PV{good, errNil})
+				}
+				if !bad.Dead {
+					if obj != nil {
+						bad.Vars[obj] = &BuilderVal{Content: tConcat(b.Content, app(SStr, "tt_exec_partial", t.Src, d))}
+					}
+					out = append(out, PV{bad, libErr})
+				}
+				return out
 			}
 		}
 	case "strings.Builder.String", "bytes.Buffer.String":
@@ -1132,4 +1285,20 @@ func (c *Ctx) sepFreeTerm(t, sep string) bool {
 	}
 	walk(d.Body)
 	return okAll
+}
+
+// mentionsGhost: the clause speaks about a call-site ghost of the callee (internal to the callee's own proof)
+func mentionsGhost(n *Node, ct *Contract) bool {
+	if n == nil || len(ct.CallGhosts) == 0 {
+		return false
+	}
+	if n.Op == "ident" {
+		return ct.ghostSpec(n.Name) != nil
+	}
+	for _, a := range n.Args {
+		if mentionsGhost(a, ct) {
+			return true
+		}
+	}
+	return false
 }
